@@ -22,6 +22,13 @@ enum BodyKind {
     GroupReduceState,
     /// an inner replay (2 rounds, own state) whose result is added to the outer state
     Nested,
+    /// an inner replay (at most 3 rounds, stopped by its condition `state < 40`) whose body reads
+    /// the INNER state; its final state goes on to a map reading the outer state
+    NestedInnerState,
+    /// like `NestedInnerState`, but the elements entering the inner loop depend on the outer
+    /// state (x when it is 0, x % 3 afterwards), so that the inner loop is stopped by its
+    /// condition in one outer round and needs its full bound in the next
+    NestedCondStop,
 }
 
 #[derive(Clone, Copy, Debug, PartialEq, Eq)]
@@ -35,6 +42,7 @@ const PROBE_ID: u32 = 42;
 /// The loop body. Every state read is logged right after the probe event of its element, so the
 /// round of a read is the number of end-of-iteration markers the same replica saw before it.
 fn body(s: DS<i64>, state: IterationStateHandle<i64>, kind: BodyKind) -> DS<i64> {
+    let st2 = state.clone();
     let read = move |x: i64| {
         let st = *state.get();
         log(Ev::Note("state-read", vec![st, x]));
@@ -55,7 +63,44 @@ fn body(s: DS<i64>, state: IterationStateHandle<i64>, kind: BodyKind) -> DS<i64>
             );
             erase(probe(inner, PROBE_ID).map(read))
         }
+        BodyKind::NestedInnerState | BodyKind::NestedCondStop => {
+            let premap = kind == BodyKind::NestedCondStop;
+            let s = erase(s.map(move |x| if premap && *st2.get() != 0 { x % 3 } else { x }));
+            let inner = s.shuffle().replay(
+                3,
+                0i64,
+                |s, ist| {
+                    s.map(move |x| {
+                        let st = *ist.get();
+                        log(Ev::Note("inner-state-read", vec![st, x]));
+                        (x + st) % 1000
+                    })
+                },
+                |d: &mut i64, x: i64| *d += x,
+                |st: &mut i64, d: i64| *st += d,
+                |st: &mut i64| *st < 40,
+            );
+            erase(probe(inner, PROBE_ID).map(read))
+        }
     }
+}
+
+/// The inner loop of `NestedInnerState` run sequentially over `cur`: (reads (state, x), final state).
+fn inner_reference(cur: &[i64]) -> (Vec<(i64, i64)>, i64) {
+    let mut st = 0i64;
+    let mut reads = vec![];
+    for _ in 0..3 {
+        let mut delta = 0;
+        for x in cur {
+            reads.push((st, *x));
+            delta += (x + st) % 1000;
+        }
+        st += delta;
+        if !(st < 40) {
+            break;
+        }
+    }
+    (reads, st)
 }
 
 /// Sequential reference: (states s_0..s_k, final output elements of iterate).
@@ -80,6 +125,11 @@ fn reference(input: &[i64], kind: BodyKind, lk: LoopKind, max: usize, limit: i64
                 } else {
                     vec![2 * cur.iter().map(|x| x + 1).sum::<i64>()]
                 }
+            }
+            BodyKind::NestedInnerState => vec![inner_reference(&cur).1],
+            BodyKind::NestedCondStop => {
+                let c2: Vec<i64> = cur.iter().map(|x| if st != 0 { x % 3 } else { *x }).collect();
+                vec![inner_reference(&c2).1]
             }
         };
         let out: Vec<i64> = base.iter().map(|x| (x + st) % 1000).collect();
@@ -154,6 +204,20 @@ fn scenario(lk: LoopKind, kind: BodyKind, input: Vec<i64>, max: usize, limit: i6
         }
     });
     let (states, fin) = reference(&input, kind, lk, max, limit);
+    // every read of the inner state the sequential nested loop performs, over all outer rounds
+    let mut inner_expected: Vec<(i64, i64)> = vec![];
+    if kind == BodyKind::NestedInnerState || kind == BodyKind::NestedCondStop {
+        let mut cur = input.clone();
+        for st in states.iter().take(states.len() - 1) {
+            let c2: Vec<i64> = cur.iter().map(|x| if kind == BodyKind::NestedCondStop && *st != 0 { x % 3 } else { *x }).collect();
+            let (reads, fin_in) = inner_reference(&c2);
+            inner_expected.extend(reads);
+            if lk == LoopKind::Iterate {
+                cur = vec![(fin_in + st) % 1000];
+            }
+        }
+        inner_expected.sort();
+    }
     let d2 = descr.clone();
     let tagk = format!("{:?}-{:?}", lk, kind);
     let check: Check = Arc::new(move |r| {
@@ -200,6 +264,20 @@ fn scenario(lk: LoopKind, kind: BodyKind, input: Vec<i64>, max: usize, limit: i6
                 _ => {}
             }
         }
+        if kind == BodyKind::NestedInnerState || kind == BodyKind::NestedCondStop {
+            let mut got: Vec<(i64, i64)> = r
+                .log
+                .iter()
+                .filter_map(|e| if let Ev::Note("inner-state-read", v) = e { Some((v[0], v[1])) } else { None })
+                .collect();
+            got.sort();
+            if got != inner_expected {
+                return Err(Fail::new(
+                    format!("c10-{tagk}-inner-loop-state"),
+                    format!("{d2}: the inner loop's body read (inner state, element) {:?}; a sequential nested loop reads {:?}", got, inner_expected),
+                ));
+            }
+        }
         let (n, rows) = sink_rows(&r.log, "state");
         let fin_state = *states.last().unwrap();
         if n != 1 || rows.as_ref().map(|r| r.len()) != Some(1) || rows.as_ref().unwrap()[0][0] != fin_state {
@@ -238,7 +316,7 @@ fn build(tier: Tier) -> Vec<Scenario> {
         vec![Layout::Local(1), Layout::Local(2), Layout::Local(3), Layout::Remote(vec![1, 1]), Layout::Remote(vec![2, 1])]
     };
     for lk in [LoopKind::Replay, LoopKind::Iterate] {
-        for kind in [BodyKind::MapState, BodyKind::ShuffleMapState, BodyKind::GroupReduceState, BodyKind::Nested] {
+        for kind in [BodyKind::MapState, BodyKind::ShuffleMapState, BodyKind::GroupReduceState, BodyKind::Nested, BodyKind::NestedInnerState, BodyKind::NestedCondStop] {
             for layout in &layouts {
                 let remote = layout.hosts() > 1;
                 for (input, max, limit) in [
@@ -247,7 +325,11 @@ fn build(tier: Tier) -> Vec<Scenario> {
                     (vec![1, 2], 3, 10),  // the condition stops the loop before the bound
                     (vec![], 2, 1_000_000),
                     (vec![4, 7], 0, 1_000_000),
+                    (vec![20, 25], 3, 1_000_000),
                 ] {
+                    if (kind == BodyKind::NestedCondStop) != (input == vec![20, 25]) {
+                        continue;
+                    }
                     if tier == Tier::Quick && remote && (input.len() != 3) {
                         continue;
                     }
